@@ -27,6 +27,8 @@ type c10Op struct {
 }
 
 type c10Workload struct {
+	// openableAfter[i]: messages openable right after operation i in the crash-free run
+	openableAfter []map[int]bool
 	Name    string
 	Batched bool
 	Fresh   func() *party // the store under test, before the script
@@ -162,6 +164,13 @@ func c10RunReceiver(rep *vrep.Report, wl *c10Workload, double bool) {
 			panic(fmt.Sprintf("workload %s: op %s fails in the clean run: %v", wl.Name, op.Name, err))
 		}
 		results[i] = r
+		after := map[int]bool{}
+		for mi, m := range wl.Msgs {
+			if wl.probe(P, P.ds, m).ok {
+				after[mi] = true
+			}
+		}
+		wl.openableAfter = append(wl.openableAfter, after)
 	}
 	boundary = append(boundary, len(log))
 	P.ds.log = nil
@@ -251,6 +260,17 @@ func c10AfterRestart(rep *vrep.Report, wl *c10Workload, P *party, state *memDS, 
 	for j := i; j < len(wl.Ops); j++ {
 		boundary2 = append(boundary2, len(log2))
 		_, err := wl.Ops[j].Run(R)
+		if j == i && wl.Ops[j].Kind == "reg" && err == nil && len(crashes) == 1 {
+			// an interrupted registration that is issued again must take effect: what the registration makes
+			// openable in a crash-free run is openable now
+			for mi := range wl.openableAfter[j] {
+				m := wl.Msgs[mi]
+				if r := wl.probe(P, R.ds, m); !r.ok {
+					viol("reissued-registration-ineffective", fmt.Sprintf("the registration was interrupted and issued again after restart; message %s, openable right after this registration in a crash-free run, does not open: %s", m.Label, r.err))
+					break
+				}
+			}
+		}
 		if j == i {
 			// (2) after re-issuing the interrupted op: everything that was openable at the last boundary is openable
 			for mi := range openable {
